@@ -172,8 +172,13 @@ def _iter_rows_with_delimiter(filepath, delimiter, has_header):
     # errors='replace': a byte that is not UTF-8 (a Latin-1 export, say) garbles one character of
     # one cell; it must not make the whole file unreadable
     with open(filepath, 'r', encoding='utf-8-sig', errors='replace') as f:
-        if delimiter and delimiter == 'tab':
+        if delimiter and delimiter in ('tab', '\\t'):
+            # 'tab', or the two characters backslash-t (what '\t' in single quotes is in YAML)
             delimiter = '\t'
+        if delimiter and len(delimiter) > 1 and not delimiter.startswith('regex:'):
+            # Not one of the documented forms: reading the file as comma-separated instead would
+            # drop every row without a word
+            raise ValueError(f"Unsupported delimiter {delimiter!r}: use 'tab', one character, or 'regex:<pattern>'")
         if delimiter and delimiter.startswith('regex:'):
             # Regex-based parsing
             pattern = re.compile(delimiter[6:])  # Strip 'regex:' prefix
